@@ -162,6 +162,12 @@ DIRECTED = {
                           "extra": ["item"]},
     "two-subsupers": {"item": [], "curve": ["item"], "line": ["curve"], "circle": ["curve"], "surf": ["item"],
                       "p": ["surf"], "q": ["surf"]},
+    # several sub-supertype groups side by side under one AND/ANDOR list: OR groups (non-abstract sub-supertype with its own
+    # subtype), ABSTRACT groups, (x AND y) groups — tryNext must restart every later group after an earlier OR moved on
+    "groups3": {"r": [], "a": ["r"], "a1": ["a"], "m": ["r"], "x": ["m"], "c": ["r"], "c1": ["c"]},
+    "groups3-wide": {"r": [], "a": ["r"], "a1": ["a"], "a2": ["a"], "m": ["r"], "x": ["m"], "c": ["r"], "c1": ["c"]},
+    "groups4": {"r": [], "a": ["r"], "a1": ["a"], "b": ["r"], "b1": ["b"], "c": ["r"], "c1": ["c"], "d": ["r"]},
+    "groups-leafpair": {"r": [], "a": ["r"], "a1": ["a"], "p": ["r"], "q": ["r"], "c": ["r"], "c1": ["c"], "c2": ["c"]},
     "subsuper-chain": {"item": [], "curve": ["item"], "conic": ["curve"], "circle": ["conic"], "line": ["curve"],
                        "styled": ["item"]},
 }
